@@ -102,6 +102,7 @@ def c14(tier):
         specs = [recv_spec('recv-N5', tags, N=5, auto_pong='sym'),
                  recv_spec('ping-length-sweep', tags + ['C01'], ping_sweep=True, suffix='810161', xval_stride=7),
                  recv_spec('frag-text-L2-ping1', tags + ['C01'], family=dict(opcode=1, L=2, max_frags=3, ctrl_len=1), cuts='bytewise'),
+                 recv_spec('rejected-close-then-pings', tags, N=4, first_opcodes=[9], no_rsv=True, app_rejected_close_at_ready=True),
                  recv_spec('recv-N4-writefault', tags, N=4, first_opcodes=[9, 1, 2, 0],
                            fault=dict(ops=['sendall'], kinds=['oserror', 'exception'], max=1, skip={'sendall': 1}))]
     else:
@@ -286,6 +287,13 @@ def c07(tier):
                   connect=dict(poll=1.0, close_timeout=3.0),
                   app=dict(actions=['close', 'close_default'], max_actions=1, only_events=['connecting', 'connected', 'ready', 'text']),
                   max_waits=30),
+        life_spec('close-write-fault-then-silence', tags,
+                  'as close-then-silence, with a symbolic fault on any write after the upgrade request (the Close frame itself may fail to be written): '
+                  'the close timeout must still end the iteration',
+                  server=dict(kind='grammar', K=1, alphabet=['text']), end='silence', silent_waits=10 ** 6,
+                  connect=dict(poll=1.0, close_timeout=3.0),
+                  app=dict(actions=['close', 'close_default'], max_actions=1, only_events=['connected', 'ready', 'text']),
+                  fault=dict(ops=['sendall'], kinds=['oserror', 'exception'], max=1, skip={'sendall': 1}), max_waits=30),
         life_spec('grammar-K%d-cut' % (2 if q else 3), tags,
                   'server grammar frames, transport cut after a symbolic number of bytes of the whole stream (incl. inside the handshake)',
                   server=dict(kind='grammar', K=2 if q else 3, alphabet=['text', 'ping', 'close', 'frag']), cut_anywhere=True, end='sym',
@@ -308,6 +316,10 @@ def c09(tier):
                   server=dict(kind='fixed', hex='810161' + '890170' + '020162' + '800163' + ('' if q else '8800')),
                   fault=dict(ops=allops, kinds=['oserror', 'exception'], max=1),
                   app=dict(actions=['send_text', 'close'], max_actions=1)),
+        life_spec('dead-socket', tags,
+                  'a read / selector-wait failure that persists (every later call fails too): the iterator must still end',
+                  server=dict(kind='fixed', hex='810161' + '890170' + '810162'),
+                  fault=dict(ops=['recv', 'wait'], kinds=['oserror', 'exception'], max=1, sticky=['recv', 'wait']), max_waits=40),
         life_spec('cut-at-every-offset', tags,
                   'EOF or socket error after every byte offset of handshake+frames (offset is a solver variable)',
                   server=dict(kind='fixed', hex='810161' + '8902' + '7071' + '02026263' + '80026465' + '817e0003616263'),
@@ -335,7 +347,7 @@ def c09(tier):
 def c13(tier):
     tags = ['C13']
     specs = []
-    for mech in ['break', 'raise', 'gen.close', 'with', 'with-held']:
+    for mech in ['break', 'raise', 'gen.close', 'with', 'with-held', 'reconnect-then-close']:
         specs.append(life_spec('abandon-%s' % mech.replace('.', '-'), tags,
                                'consumer shape "%s"; server: <=3 frames from {Text, Ping, fragmented Binary, Close}; poll=0 so housekeeping Polls '
                                'are yielded from the top of the loop; the application abandons at a solver-chosen event (optionally after '
@@ -412,7 +424,7 @@ def c19(tier):
 def c17(tier):
     q = tier == 'quick'
     S = lambda name, what, **P: Spec(name, 'checks.reuse', 'run_reuse', dict(P, xval_stride=P.get('xval_stride', 41)), what=what)
-    base = ['eof', 'error', 'handshake-cut', 'rejected', 'connect-fail', 'close-pending', 'abandon']
+    base = ['eof', 'error', 'handshake-cut', 'rejected', 'connect-fail', 'close-pending', 'abandon', 'abandon-keep']
     specs = [
         S('reuse-N1_%d-N2_%d' % ((3, 2) if q else (4, 3)),
           'connection 1: %d symbolic bytes + solver-chosen abnormal ending %s; connection 2 on the same object: valid handshake + %d symbolic bytes; '
@@ -423,6 +435,8 @@ def c17(tier):
         S('reuse-compressed', 'connection 1 negotiated permessage-deflate with context takeover, received one compressed message and stopped inside the next; '
           'connection 2 negotiates compression again and receives the first message of a NEW deflate context (abstract zlib of C06)', N1=1, N2=2,
           endings=['compressed-then-eof']),
+        S('reuse-compressed-then-plain', 'connection 1 negotiated permessage-deflate; connection 2\'s server does not: the reused object must behave like a fresh one '
+          '(no RSV1, no stale compressor)', N1=1, N2=2, endings=['compressed-then-plain']),
     ]
     return run_property('C17', tier, specs, 'model_checking', 'each connect() starts from a clean slate', ENV_ASSUMPTIONS + [
         'reconnect chains longer than 2 follow by induction only if connection 2 leaves no more state than connection 1 could (stated, not proved)'],
@@ -526,6 +540,12 @@ def c06(tier):
           spellings=['absent'], incoming=2, sends=2, max_frags=1, sym_negotiate=False, sym_flags=False, flags=(False, False), bad=False),
         S('not-negotiated', 'compress offered but the server does not negotiate: RSV1 must never be set, RSV1 from the server is a violation', spellings=['absent'],
           incoming=1, sends=2, send_in_ready=True, bad=False, sym_negotiate=False, negotiate=False, sym_flags=False, max_frags=1),
+        Spec('renegotiation-plain', 'checks.reuse', 'run_reuse', dict(N1=1, N2=2, endings=['compressed-then-plain'], xval_stride=3),
+             what='one object, two connections: the first negotiates permessage-deflate, the second does not; on the second the client must not set RSV1 '
+                  '(compared with a fresh object; harness of C17)'),
+        Spec('renegotiation-compressed', 'checks.reuse', 'run_reuse', dict(N1=1, N2=2, endings=['compressed-then-eof'], xval_stride=3),
+             what='one object, two connections, both negotiate permessage-deflate with context takeover: a NEW peer inflater must restore what the second '
+                  'connection sends (harness of C17)'),
     ]
     return run_property('C06', tier, specs, 'model_checking', 'permessage-deflate used as RFC 7692 prescribes', ENV_ASSUMPTIONS + [
         'REDUCED SCOPE: DEFLATE/INFLATE themselves are not encoded (zlib is C code with data-dependent loops); losslessness of zlib is trusted. zlib is replaced by an executable '
@@ -558,6 +578,8 @@ def c11(tier):
     specs = [
         sched_spec('two-senders', tags, [['send_text'], ['send_binary']], 2, W),
         sched_spec('sender-vs-loop', tags, [['send_text'], ['pong', 'auto_ping']], 2, W + ' (event loop pong/ping vs application send)'),
+        sched_spec('sender-vs-real-loop', tags, [['loop'], ['send_text']], 2,
+                   W + ' (thread 1 runs the REAL event loop: ws.connect() receives a Ping and writes its automatic Pong while thread 2 sends)', xval_stride=5),
         sched_spec('three-messages-compressed', tags, [['send_text', 'send_text'], ['send_binary']], 1,
                    W + '; one thread sends two compressed messages with another thread\'s message possibly between them (shared context)',
                    compress=dict(client_no_takeover=False)),
